@@ -19,7 +19,7 @@ RULE = ("list(vf2pp_all_isomorphisms(g1, g2, atom_labels, stereo, stereo_change)
 ASSUMPTIONS = ["full-graph mode only (subgraph=False)",
                "'structure' = caller/default atom labels + adjacency (+ descriptors / stereo changes when asked); bond roles are "
                "not part of what this function is given (they are C02's business via ==)"]
-BUDGET = {"quick": 240, "thorough": 1800}
+BUDGET = {"quick": 600, "thorough": 1800}
 MG, SMG, CRG, SCRG = RG.MG, RG.SMG, RG.CRG, RG.SCRG
 MODES = ("default", "elements", "all-equal", "degree", "mismatch")
 
